@@ -34,6 +34,9 @@ def run(ctx):
     lossless_bool_subpackets(ctx, P)
     opaque_layout(ctx, P)
     dispatch(ctx, P)
+    # packet / subpacket length encoders and decoders are mutually inverse partitions (shared with C17)
+    from rules import c17
+    c17.s17_1(ctx, P)
 
 
 # ---------------------------------------------------------------------------------------------------------
@@ -50,7 +53,8 @@ def serialize_pairs(f):
     return {k: v for k, v in pairs.items() if len(v) == 2}
 
 
-def r_len(ctx, P):
+def r_len(ctx, P, only=None, floors=(70, 55)):
+    """only: regex on the implementing type; verdicts are reported for matching pairs only (axioms still come from all pairs)."""
     f = ctx.f
     rev = errs.load_reviewed(os.path.join(HERE, 'reviewed', 'rlen_unanalysed.txt'))
     pairs = serialize_pairs(f)
@@ -73,6 +77,8 @@ def r_len(ctx, P):
         serlen.normalise(l, const_types, af)
         d, u = serlen.compare(w, l)
         unk = serlen.has_unknown(w) + serlen.has_unknown(l)
+        if only and not re.search(only, k):
+            continue
         key = '%s:S05-1:R-len:%s' % (P, k)
         if (unk or w.unanalysed or l.unanalysed) and not d:
             reason = (w.unanalysed + l.unanalysed + [str(x) for x in unk])[:3]
@@ -92,8 +98,8 @@ def r_len(ctx, P):
         analysed.append(k)
         ctx.ok(key, 'R-len', 'write_len of %s is the same guarded sum of terms as the bytes to_writer emits' % k, function=pairs[k]['write_len'],
                count=len(w.terms))
-    ctx.floor(P + ':S05-1:floor:pairs', 'to_writer/write_len pairs found', len(pairs), 70)
-    ctx.floor(P + ':S05-1:floor:analysed', 'pairs fully analysed and equal', len(analysed), 55)
+    ctx.floor(P + ':S05-1:floor:pairs', 'to_writer/write_len pairs found', len(pairs), floors[0])
+    ctx.floor(P + ':S05-1:floor:analysed', 'pairs fully analysed and equal', len(analysed), floors[1])
     ctx.extra = dict(getattr(ctx, 'extra', {}), rlen_pairs=len(pairs), rlen_equal=len(analysed), rlen_unanalysed=unan, rlen_undecided=und,
                      rlen_axioms=dict(constant_size_types=const_types, array_fields=len(af)))
 
